@@ -364,6 +364,90 @@ func (r *Run) Guard(phase string, caseSeed int64, f func()) {
 	f()
 }
 
+// Blocked runs f in its own goroutine and waits for it.  If f has not returned
+// after a grace period, the goroutine's STATE is inspected (runtime.Stack): when
+// it is parked on a lock / semaphore with one of the given frames on its stack,
+// and two inspections three seconds apart show the identical stack, f is
+// declared blocked and the stack is returned (the goroutine is abandoned).
+// Anything else (running, sleeping, I/O, a changing stack) just keeps waiting:
+// slowness is never a verdict, only a persistent lock wait inside the code under
+// test is.  Use for single-threaded scenarios, where nobody else can legitimately
+// hold the lock.
+func Blocked(frames []string, f func()) (stack string, blocked bool) {
+	done := make(chan struct{})
+	idc := make(chan string, 1)
+	go func() {
+		defer close(done)
+		b := make([]byte, 64)
+		b = b[:runtime.Stack(b, false)]
+		fs := strings.Fields(string(b))
+		id := ""
+		if len(fs) > 1 {
+			id = fs[1]
+		}
+		idc <- id
+		f()
+	}()
+	id := <-idc
+	inspect := func() (string, bool) {
+		buf := make([]byte, 4<<20)
+		buf = buf[:runtime.Stack(buf, true)]
+		for _, g := range strings.Split(string(buf), "\n\n") {
+			if !strings.HasPrefix(g, "goroutine "+id+" [") {
+				continue
+			}
+			hdr := g[:strings.Index(g, "\n")]
+			parked := strings.Contains(hdr, "sync.Mutex.Lock") || strings.Contains(hdr, "sync.RWMutex") || strings.Contains(hdr, "semacquire") || strings.Contains(hdr, "sync.Cond.Wait")
+			if !parked {
+				return g, false
+			}
+			for _, fr := range frames {
+				if strings.Contains(g, fr) {
+					return g, true
+				}
+			}
+			return g, false
+		}
+		return "", false
+	}
+	strip := func(g string) string { // drop the "N minutes" part of the header and argument values
+		var out []string
+		for i, l := range strings.Split(g, "\n") {
+			if i == 0 {
+				continue
+			}
+			if j := strings.Index(l, "("); j > 0 && !strings.HasPrefix(l, "\t") {
+				l = l[:j]
+			}
+			out = append(out, l)
+		}
+		return strings.Join(out, "\n")
+	}
+	grace := time.After(10 * time.Second)
+	select {
+	case <-done:
+		return "", false
+	case <-grace:
+	}
+	for {
+		g1, p1 := inspect()
+		select {
+		case <-done:
+			return "", false
+		case <-time.After(3 * time.Second):
+		}
+		g2, p2 := inspect()
+		if p1 && p2 && strip(g1) == strip(g2) {
+			select {
+			case <-done:
+				return "", false
+			default:
+			}
+			return g2, true
+		}
+	}
+}
+
 // PanicKey derives the structural signature of a recovered panic from its stack.
 func PanicKey(stack string) string {
 	if strings.Contains(stack, "/repo/") {
